@@ -418,6 +418,12 @@ func build(s Structure) (r rendered, applicable bool) {
 			// the plain siblings (and the clashing one) stand in front of the choice, the uses inside a
 			// case of it: the nodes of a case are siblings of the nodes around the choice
 			return " container site {" + common + " choice sitech { case siteca { " + content + " } leaf other2 { type string; } } }"
+		case "rpc-input":
+			return " rpc op { input {" + common + " " + content + " } }"
+		case "rpc-output":
+			return " rpc op { output {" + common + " " + content + " } }"
+		case "notification":
+			return " notification ev {" + common + " " + content + " }"
 		case "grouping":
 			return " container site { uses outer; }"
 		case "augment":
@@ -915,6 +921,19 @@ func run(c *engine.Ctx) {
 							structs = append(structs, Structure{Body: []string{b}, Nested: true, Deep: true, Def: d, Site: site, Mods: []string{m}})
 						}
 					}
+				}
+			}
+		}
+	}
+	// the roots of the other trees of a module: directly below an rpc's input, its output, a notification
+	for _, b := range bodyNames[:8] {
+		for _, nested := range []bool{false, true} {
+			for _, d := range defs {
+				for _, site := range []string{"rpc-input", "rpc-output", "notification"} {
+					for _, m := range []string{"", "refine-default", "refine-description", "augment", "status"} {
+						structs = append(structs, Structure{Body: []string{b}, Nested: nested, Def: d, Site: site, Mods: []string{m}})
+					}
+					structs = append(structs, Structure{Body: []string{b}, Nested: nested, Def: d, Site: site, Mods: []string{""}, Clash: true})
 				}
 			}
 		}
